@@ -54,13 +54,13 @@ def extra_cases(tier, seed, shard, nshards):
             if any(k not in seen for k in ks):
                 seen.update(ks)
                 picked.append(c)
-        cs = picked[:32]
+        cs = picked[:40]
     for i, c in enumerate(cs):
         if i % nshards == shard:
             yield dict(c, kind=KINDS[(i + seed) % 4])
 
 
-EXHAUSTIVE_NOTE = "thorough: all %d cells (spelling x initgroups x history x bind), worker class rotating; quick: seeded slice of <=32 covering every spelling x initgroups and every history x bind" % len(list(cells()))
+EXHAUSTIVE_NOTE = "thorough: all %d cells (spelling x initgroups x history x bind), worker class rotating; quick: seeded slice of <=40 covering every spelling x initgroups and every history x bind" % len(list(cells()))
 
 
 def run_case(case):
